@@ -1,0 +1,9 @@
+//go:build verif
+
+package aac
+
+// Property C19: encoding an AudioSpecificConfig only writes to the given writer.
+//@ func (*AudioSpecificConfig).Encode
+//@   requires a != nil && w != nil
+//@   ensures[C19] result == nil ==> a.ObjectType == 2 || a.ObjectType == 5 || a.ObjectType == 29
+//@   assigns ghost(w).wlen, ghost(w).wz, ghost(w).wlegal, ghost(w).wesc, ghost(w).wtight, ghost(w).pay, ghost(w).plen, ghost(w).wdata, ghost(w).tr
